@@ -122,6 +122,45 @@ CLAIMS.update({
     ),
 })
 
+CLAIMS.update({
+    'C06': (
+        'clause templates of the SAT encoding instantiated by a finite-domain evaluator on the smallest instances and compared with the specification over all structure assignments',
+        'Decides, at the level of the clause templates: the generator of the default CNF, fix_gate, forbid_wire and the model decoder are instantiated from the syntax tree (pysat replaced by recording hosts; nothing is solved) '
+        'for <= 2 inputs and <= 2 gates and, for every choice of predecessor pairs x 16 gate tables x output gates, the clause set (after unit propagation of the forced gate values) accepts the structure iff it is a circuit of the requested basis that '
+        'agrees with the model on every defined entry and obeys normalisation / fixed gates / forbidden wires; exactly-one constraints; illegal constraint arguments are refused; the decoder rebuilds exactly the encoded circuit; Operation/Basis tables agree with the oracle. '
+        'The generator is uniform in gate index and table position, so these instances exhibit every template; for larger sizes only the loop domains are relied on. Not decided: the solver, time limits, database shortcut content.',
+        'DESIGN.md 4 C06',
+    ),
+    'C11': (
+        'printer and reader folded line by line over label classes induced by the reader\'s literal tests; shape rules on file-level plumbing',
+        'Decides: for every gate type, every legal arity and every label class induced by the literals the reader compares against (labels starting with / equal to INPUT, OUTPUT, VDD, BUFF, every operator name, in both cases), the line format_gate prints is routed by _process_line to the right handler and yields '
+        'the same label, type and operands in order; INPUT/OUTPUT declarations recover exactly the label; blank/comment lines produce nothing; lower-case operators, missing blanks, BUFF and vdd aliases denote the documented gates; unknown operators are refused; handlers admit every legal arity; '
+        'format_circuit lists inputs, gates, outputs in order and save_to_file writes exactly that; the reader tolerates use before definition and checks operands at end of file. Not decided: layouts outside the enumerated line forms (leading blanks, INPUT (x), CRLF).',
+        'DESIGN.md 4 C11',
+    ),
+    'C12': (
+        'protocol/implementation signature comparison, enumeration-order rules, loop-carried-state dataflow rule, folding of the index conversions',
+        'Decides structural necessary conditions of agreement: all three representations (and both models) define every body-less protocol method with the protocol\'s parameter names, order and defaults; every enumeration is product((False, True)); '
+        'input<->index conversions and get_bit_value agree with that order (exhaustive for 1..4 inputs); int wrappers reverse operands and result under the same test; order-sensitive predicates (is_monotone*) decide from loop-carried state or delegate; '
+        'delegating predicates are all(..._at(i)); define() writes a deep copy at [output][canonical index] / replaces exactly the DontCare entries / returns self only for an empty definition. Not decided: that each predicate equals its mathematical definition.',
+        'DESIGN.md 4 C12',
+    ),
+    'C16': (
+        'table inversion checks, guard-dominance rule for the operand count, order/width rules, bit- and dict-level writers/readers folded over every alignment',
+        'Decides: type ids injective, within 4 bits, decoder table = inverse; the encoder writes exactly the operand count the decoder reads or raises CircuitEncodingError, and that count is a legal arity of the operator; identifiers are assigned operands-first; '
+        'every word_size quantity is bounded by the maximum in _get_word_size; encoder and decoder use mirrored width sequences; BitWriter/BitReader are mutual inverses for every bit alignment and length and refuse oversize/overrun; the binary dict writer/reader are mutual inverses '
+        '(incl. non-ASCII keys), the length written is the length of the bytes written, every read is length-checked and truncated/trailing data are refused. Truth-table preservation of decode(encode(c)) follows by a paper argument, not mechanically.',
+        'DESIGN.md 4 C16',
+    ),
+    'C17': (
+        'normalisation and don\'t-care lookup folded over all small tables with stub stores; shape rules on key derivation',
+        'NARROW claim: the sentence about the content of the shipped data files is NOT decided (data, not code shape). Decided for the lookup sentence: normalise/denormalise folded over every table with 1-2 inputs and up to 2 (3 thorough) outputs restores the requested table row by row through negation, '
+        'reordering and duplicates (rows are touched only through tt[0], ordering and equality, so these tables cover every pattern up to that many outputs); normal form idempotent; undo steps in reverse order; the don\'t-care lookup tries exactly the completions, never alters defined entries and returns a smallest stored circuit; '
+        'add and lookup derive the key from the normal form through one injective function.',
+        'DESIGN.md 4 C17',
+    ),
+})
+
 PENDING = 'check under construction in this session (see DESIGN.md section 4); not claimed until its rules run clean'
 
 ALL = [f'C{i:02d}' for i in range(1, 21)]
